@@ -49,8 +49,8 @@ Source(tag) == {tp \in {<<t, p>> : t \in 1..Len(hist), p \in 1..Cap} :
 
 TxOK    == e.t = Len(txs) + 1 /\ ~fin
 DgramT  == e.t \in 1..Len(txs)
+\* (a datagram examined after the query has ended is not forbidden; it still counts against the cap)
 DgramOK ==
-    /\ ~fin                                            \* C16_Final: nothing is examined after the end
     /\ DgramT
     /\ Len(hist[e.t]) < Cap                            \* C16_AtMostThree
     /\ Has("claim") => View(txs[e.t], e) = e.claim     \* harness consistency
@@ -60,26 +60,29 @@ DoneOK ==
     \* C16_AcceptOnlyMatching, C16_NoAcceptAfterCap
     /\ e.o = "accept" => \E tp \in Source(e.tag) : Matches(hist[tp[1]][tp[2]].v, c.cr)
 
+\* evaluate a state-level condition as a value (TLC would otherwise split its disjunctions into
+\* separate, identical successor states)
+Holds(b) == b = TRUE
+
 EvAllowed ==
-    \/ /\ e.ev = "tx" /\ TxOK
+    \/ /\ e.ev = "tx" /\ Holds(TxOK)
        /\ txs' = Append(txs, [ip |-> c.ip, port |-> c.port, id |-> e.id, qs |-> e.qs])
        /\ hist' = Append(hist, <<>>)
        /\ UNCHANGED fin
-    \/ /\ e.ev = "dgram" /\ DgramOK
+    \/ /\ e.ev = "dgram" /\ Holds(DgramOK)
        /\ hist' = [hist EXCEPT ![e.t] = Append(@, [tag |-> e.tag, v |-> View(txs[e.t], e)])]
        /\ UNCHANGED <<txs, fin>>
-    \/ /\ e.ev = "done" /\ DoneOK
+    \/ /\ e.ev = "done" /\ Holds(DoneOK)
        /\ fin' = TRUE
        /\ UNCHANGED <<txs, hist>>
 
 Why ==
     IF e.ev = "dgram" THEN
-        IF fin THEN "C16_Final: datagram examined after the query ended"
-        ELSE IF ~DgramT THEN "ADAPTER: datagram for an unknown transmission"
+        IF ~DgramT THEN "ADAPTER: datagram for an unknown transmission"
         ELSE IF Len(hist[e.t]) >= Cap THEN "C16_AtMostThree: more than three datagrams examined on one transmission"
         ELSE "ADAPTER: concrete datagram does not have the view the generator intended"
     ELSE IF e.ev = "done" THEN
-        IF fin THEN "C16_Final: the query ended twice"
+        IF fin THEN "ADAPTER: the query ended twice"
         ELSE IF e.o = "accept" /\ Source(e.tag) = {} THEN
             "C16_NoAcceptAfterCap: completed with content that is not one of the (at most three per transmission) examined datagrams"
         ELSE "C16_AcceptOnlyMatching: completed with a datagram that does not match"
